@@ -2,11 +2,17 @@ from xhair.runner import Obl
 from checks.common import per_part
 
 M = "xhair.obl.c02"
+QBUILT = [("h?n=", 1, "&t=a"), ("h/s?version=v", 1, "&q=q1")]
+QBUILT_T = [("h?n=x&t=", 1, ""), ("h?version=v1&q=q1&t=", 1, ""), ("h/a?ext=m&o=g&version=v1&n=", 1, "")]
 
 
 def x_obligations(tier):
     o = []
     o += per_part("C02", "C02-canonical", M, "canonical", tier)
+    # typed Sids obtained by a query that adds deeper keys in another order than the template's
+    for pre, n, suf in QBUILT if tier == "quick" else QBUILT + QBUILT_T:
+        o.append(Obl(f"C02-canonical[query-built,{pre!r}+{n}+{suf!r}]", M, "canonical", env={"VF_PRE": pre, "VF_N": str(n), "VF_SUF": suf}, timeout=170 if tier == "quick" else 600,
+                     family="C02-canonical", bound=f"Sid({pre!r} + t + {suf!r}), every t with len(t) <= {n} without '?' and ':'"))
     o += per_part("C02", "C02-uri", M, "via_uri", tier)
     o += per_part("C02", "C02-fields-rev", M, "via_fields", tier, extra_env={"VF_ROT": "0"})
     o += per_part("C02", "C02-fields-rot", M, "via_fields", tier, extra_env={"VF_ROT": "2"}, only=None if tier == "thorough" else ["h/a/x/", "h/s/q1/v1/"])
